@@ -51,6 +51,9 @@ pub fn run(run: &Run) {
     run.random("entry-points", run.cases(120_000, 3_000_000), 0.4, strategy, check);
 }
 
-pub fn replay(_section: &str, case: &Json) -> Option<CheckResult> {
+pub fn replay(section: &str, case: &Json) -> Option<CheckResult> {
+    if section.starts_with("fuzz-") {
+        return super::fuzz_replay("C03", section, case);
+    }
     case_from::<Case>(case).map(|c| check(&c))
 }
